@@ -24,7 +24,7 @@ const (
 var OCSPBehaviours = []string{
 	// authentic
 	"good", "good-delegate", "good-byname", "good-multi", "good-embed-issuer",
-	"revoked", "revoked-keycompromise", "revoked-hold",
+	"revoked", "revoked-keycompromise", "revoked-hold", "revoked-remove", "revoked-reason7", "revoked-reason10",
 	"revoked-inv-before", "revoked-inv-equal", "revoked-inv-after", "revoked-inv-malformed", "revoked-inv-undecodable", "revoked-after-st", "revoked-after-st-inv-before",
 	"unknown-status",
 	// forged
@@ -54,6 +54,7 @@ type Kit struct {
 	Cert   *x509.Certificate
 	Issuer *x509.Certificate
 	IKey   *pki.Key
+	Shape  Shape
 
 	mu      sync.Mutex
 	replies map[string]netsim.Reply
@@ -75,7 +76,7 @@ func (f *Family) KitFor(pos int, s Shape, issuerShape Shape) *Kit {
 		return kit
 	}
 	f.mu.Unlock()
-	kit := &Kit{F: f, Pos: pos, Cert: f.Cert(pos, s), Issuer: f.Cert(pos+1, issuerShape), IKey: f.keys[pos+1],
+	kit := &Kit{F: f, Pos: pos, Cert: f.Cert(pos, s), Issuer: f.Cert(pos+1, issuerShape), IKey: f.keys[pos+1], Shape: s,
 		replies: map[string]netsim.Reply{}, crls: map[string]*CRLSet{}}
 	f.mu.Lock()
 	if old, ok := f.kits[k]; ok {
@@ -103,7 +104,7 @@ func OCSPClass(beh string, withST bool, issuerSelfSigned bool) string {
 			return ClsOK
 		}
 		return ClsEitherOK
-	case "revoked", "revoked-keycompromise", "revoked-hold", "revoked-inv-before", "revoked-inv-equal", "revoked-inv-malformed", "revoked-inv-undecodable", "revoked-after-st", "revoked-after-st-inv-before":
+	case "revoked", "revoked-keycompromise", "revoked-hold", "revoked-remove", "revoked-reason7", "revoked-reason10", "revoked-inv-before", "revoked-inv-equal", "revoked-inv-malformed", "revoked-inv-undecodable", "revoked-after-st", "revoked-after-st-inv-before":
 		// the revocation time itself never excuses: only an invalidity date does
 		return ClsRevoked
 	case "forged-sibling-anyeku":
@@ -180,7 +181,7 @@ func (k *Kit) build(beh string) netsim.Reply {
 		o.Serial = pki.NextSerial()
 		r.Singles = []pki.OCSPSingle{o, k.single(pki.OCSPGood)}
 		return body(r)
-	case "revoked", "revoked-keycompromise", "revoked-hold", "expired-revoked":
+	case "revoked", "revoked-keycompromise", "revoked-hold", "revoked-remove", "revoked-reason7", "revoked-reason10", "expired-revoked":
 		r := base()
 		s := k.single(pki.OCSPRevoked)
 		switch beh {
@@ -188,6 +189,12 @@ func (k *Kit) build(beh string) netsim.Reply {
 			s.Reason = 1
 		case "revoked-hold":
 			s.Reason = 6
+		case "revoked-remove":
+			s.Reason = 8 // removeFromCRL: still a Revoked answer
+		case "revoked-reason7":
+			s.Reason = 7 // unassigned
+		case "revoked-reason10":
+			s.Reason = 10 // aACompromise
 		case "expired-revoked":
 			s.NextUpdate = pki.Past.Add(time.Hour)
 		}
